@@ -137,7 +137,8 @@ def run_case(case):
     for dim in case.get("marginal_dims", []):
         xq = np.quantile(S[:, dim], case.get("marginal_qs", [0.1, 0.6, 0.97]))
         mp = np.asarray(model.marginal_pdf(np.array(xq), dim), dtype=float)
-        mc = np.asarray(model.marginal_cdf(np.array(xq), dim), dtype=float)
+        # the implementation's 3-D marginal_cdf (nested nquad over two infinite ranges) takes hours: 2-D only
+        mc = None if case.get("no_marginal_cdf") else np.asarray(model.marginal_cdf(np.array(xq), dim), dtype=float)
         neval += 2
         for j, xv in enumerate(xq):
             a, b = refquad.integrate(model.pdf, edges, k=kk, fixed={dim: xv})
@@ -146,6 +147,8 @@ def run_case(case):
             elif abs(mp[j] - b) > 1e-5 * max(1.0, abs(b)):
                 bad("marginal_pdf_not_integral", {"dim": dim, "x": xv, "marginal_pdf": mp[j], "cubature": b},
                     conditional=cond_on[dim] is not None)
+            if mc is None:
+                continue
             e2 = [refquad.clip_edges(edges[d], 0.0, xv) if d == dim else edges[d] for d in range(n_dim)]
             a, b = refquad.integrate(model.pdf, e2, k=kk)
             if abs(a - b) > 1e-6:
@@ -189,7 +192,7 @@ def main(ctx):
     ctx.assumptions = ["reference density = explicit product of template densities with theta(g) from the raw shape functions",
                        "integrals by composite Gauss-Legendre cubature of the implementation's pdf, computed with k and 2k "
                        "nodes per panel; disagreement > 1e-6 is counted as oracle-inconclusive, never as a violation",
-                       "model.cdf in 3-D costs ~5 min per point: six points in the thorough tier only"]
+                       "model.cdf in 3-D costs ~5 min per point: three points in the thorough tier only; the implementation's 3-D marginal_cdf (hours per point) is not executed, 3-D marginal_pdf and the Monte-Carlo marginal_icdf are"]
     q = ctx.quick
     cases = []
     for f0, f1 in itertools.product(POS, POS):
@@ -214,6 +217,7 @@ def main(ctx):
             if not q and ti == 0:
                 c["marginal_dims"] = [d for d in range(3) if cond[d] is not None][:1]
                 c["marginal_qs"] = [0.5]
+                c["no_marginal_cdf"] = True
                 c["cdf_points"] = [[0.5, 0.6, 0.4]] if si in (1, 3, 5) else []
             if q and ti > 0:
                 c["total"] = si % 2 == 0
